@@ -9,31 +9,31 @@ Import ListNotations.
 Open Scope string_scope.
 
 (* supported => eligible, for every CPython 2.x/3.x minor, glibc 2.x version and machine.
+   The wheel's three fields are PEP 425 compressed tag sets (the ABI field too, since /repo c54d5f0).
    _partial: the unguarded statement is [supported_eligible_full_statement] (proofs file), false of
-   the code; the guard excludes (1) a compressed ABI field, (2) the legacy alias names
-   manylinux1/2010/2014_<arch> on machines other than x86_64/i686 - each refuted below. *)
+   the code; the guard excludes the legacy alias names manylinux1/2010/2014_<arch> on machines other
+   than x86_64/i686 - refuted below. *)
 Theorem C20_supported_eligible_partial :
   forall r t id v build pyf abif platf fn,
   wf_raw r = true -> In t (sys_tags r) ->
-  single_abi abif ->
   (legacy_arch (r_arch r) = true \/ is_legacy_name (snd t) = false) ->
   wheel_has_tag pyf abif platf t ->
   eligible (cfg_of r) (wheel_cand id v build pyf abif platf fn) = true.
 Proof. exact supported_eligible. Qed.
 Print Assumptions C20_supported_eligible_partial.
 
-Theorem C20_compressed_abi_refuted :
-  exists r t pyf abif platf,
-    wf_raw r = true /\ In t (sys_tags r) /\ wheel_has_tag pyf abif platf t
-    /\ legacy_arch (r_arch r) = true
-    /\ forall id v build fn, eligible (cfg_of r) (wheel_cand id v build pyf abif platf fn) = false.
-Proof. exact compressed_abi_refuted. Qed.
-Print Assumptions C20_compressed_abi_refuted.
+(* the witness of the former C20_compressed_abi_refuted (corpus/C20/compressed-abi.json), fixed by c54d5f0 *)
+Theorem C20_compressed_abi_eligible :
+  wf_raw r312 = true /\ In ("cp312", "abi3", "linux_x86_64") (sys_tags r312)
+  /\ wheel_has_tag "cp312" "abi3.cp312" "linux_x86_64" ("cp312", "abi3", "linux_x86_64")
+  /\ forall id v build fn,
+       eligible (cfg_of r312) (wheel_cand id v build "cp312" "abi3.cp312" "linux_x86_64" fn) = true.
+Proof. exact compressed_abi_eligible. Qed.
+Print Assumptions C20_compressed_abi_eligible.
 
 Theorem C20_legacy_alias_arch_refuted :
   exists r t pyf abif platf,
     wf_raw r = true /\ In t (sys_tags r) /\ wheel_has_tag pyf abif platf t
-    /\ single_abi abif
     /\ forall id v build fn, eligible (cfg_of r) (wheel_cand id v build pyf abif platf fn) = false.
 Proof. exact legacy_alias_arch_refuted. Qed.
 Print Assumptions C20_legacy_alias_arch_refuted.
@@ -59,17 +59,23 @@ Theorem C20_foreign_python_tag_rejected :
 Proof. exact foreign_python_tag. Qed.
 Print Assumptions C20_foreign_python_tag_rejected.
 
+(* no tag of the (compressed) ABI field is "none" or one of the interpreter's ABI tags *)
 Theorem C20_foreign_abi_rejected :
-  forall c k a, k_abi k = Some a -> ~ In a (c_abi_tags c) -> eligible c k = false.
+  forall c k a, k_abi k = Some a ->
+  (forall t, In t (split_char dot a) -> t <> "none" /\ ~ In t (c_abi_tags c)) ->
+  eligible c k = false.
 Proof. exact foreign_abi. Qed.
 Print Assumptions C20_foreign_abi_rejected.
 
-(* the ABI tag of any other CPython generation (whatever its flag suffix) *)
+(* every tag of the ABI field is the ABI of another CPython generation (whatever its flag suffix) or
+   another stable-ABI major *)
 Theorem C20_other_abi_generation_rejected :
-  forall r k M' m' fl,
-  wf_raw r = true -> (M' <= 9)%N -> starts_nondigit fl = true ->
-  (M', m') <> (r_major r, r_minor r) ->
-  k_abi k = Some ("cp" ++ dec M' ++ dec m' ++ fl) ->
+  forall r k a,
+  wf_raw r = true -> k_abi k = Some a ->
+  (forall t, In t (split_char dot a) ->
+     (exists M' m' fl, (M' <= 9)%N /\ starts_nondigit fl = true /\ (M', m') <> (r_major r, r_minor r)
+                       /\ t = "cp" ++ dec M' ++ dec m' ++ fl)
+     \/ (exists M', (M' <= 9)%N /\ M' <> r_major r /\ t = "abi" ++ dec M')) ->
   eligible (cfg_of r) k = false.
 Proof. exact other_abi_generation. Qed.
 Print Assumptions C20_other_abi_generation_rejected.
@@ -110,15 +116,13 @@ Proof. exact newer_manylinux. Qed.
 Print Assumptions C20_newer_manylinux_rejected.
 
 (* file-name level summary for coherent configurations: a wheel that names only python tags of another
-   major / implementation / newer minor, or the ABI of another CPython generation or stable-ABI major,
+   major / implementation / newer minor, or only ABI tags of another CPython generation or stable-ABI major,
    or only platforms of another operating system, machine or a newer C library, is rejected *)
 Theorem C20_foreign_rejected :
   forall r id v build pyf abif platf fn,
   wf_raw r = true ->
   ((forall p, In p (split_char dot pyf) -> foreign_py_tag (cfg_of r) p)
-   \/ (exists M' m' fl, (M' <= 9)%N /\ starts_nondigit fl = true /\ (M', m') <> (r_major r, r_minor r)
-                        /\ abif = "cp" ++ dec M' ++ dec m' ++ fl)
-   \/ (exists M', (M' <= 9)%N /\ M' <> r_major r /\ abif = "abi" ++ dec M')
+   \/ (forall t, In t (split_char dot abif) -> other_generation_abi_tag r t)
    \/ (forall p, In p (split_char dot platf) ->
          p <> "any" /\
          ((startswith p "manylinux" = false /\ lower p <> "linux_" ++ r_arch r)
